@@ -1,6 +1,7 @@
 package querylog
 
 import (
+	"bytes"
 	"context"
 	"fmt"
 	"io"
@@ -67,6 +68,35 @@ func newQLogFile(path string) (qf *qLogFile, err error) {
 	return &qLogFile{file: f}, nil
 }
 
+// size returns the size of the part of the file that consists of complete
+// lines.  What follows the last line break, if anything, is the beginning of
+// a record that is still being written, or the writing of which has been
+// interrupted, and is not to be read.
+func (q *qLogFile) size() (size int64, err error) {
+	fileInfo, err := q.file.Stat()
+	if err != nil {
+		return 0, err
+	}
+
+	size = fileInfo.Size()
+	buf := make([]byte, 4096)
+	for size > 0 {
+		n := min(int64(len(buf)), size)
+		_, err = q.file.ReadAt(buf[:n], size-n)
+		if err != nil && !errors.Is(err, io.EOF) {
+			return 0, err
+		}
+
+		if i := bytes.LastIndexByte(buf[:n], '\n'); i >= 0 {
+			return size - n + int64(i) + 1, nil
+		}
+
+		size -= n
+	}
+
+	return 0, nil
+}
+
 // validateQLogLineIdx returns error if the line index is not valid to continue
 // search.
 func (q *qLogFile) validateQLogLineIdx(lineIdx, lastProbeLineIdx, ts, fSize int64) (err error) {
@@ -115,7 +145,7 @@ func (q *qLogFile) seekTS(
 	q.buffer = nil
 
 	// First of all, check the file size.
-	fileInfo, err := q.file.Stat()
+	size, err := q.size()
 	if err != nil {
 		return 0, 0, err
 	}
@@ -125,7 +155,7 @@ func (q *qLogFile) seekTS(
 	// Start of the search interval (position in the file).
 	start := int64(0)
 	// End of the search interval (position in the file).
-	end := fileInfo.Size()
+	end := size
 	if end == 0 {
 		// There are no records in an empty file, so any timestamp is beyond
 		// it.  Report it the same way as for a timestamp preceding the first
@@ -154,7 +184,7 @@ func (q *qLogFile) seekTS(
 		}
 
 		// Check if the line index if invalid.
-		err = q.validateQLogLineIdx(lineIdx, lastProbeLineIdx, timestamp, fileInfo.Size())
+		err = q.validateQLogLineIdx(lineIdx, lastProbeLineIdx, timestamp, size)
 		if err != nil {
 			return 0, depth, err
 		}
@@ -222,13 +252,13 @@ func (q *qLogFile) SeekStart() (int64, error) {
 	q.buffer = nil
 
 	// First of all, check the file size.
-	fileInfo, err := q.file.Stat()
+	size, err := q.size()
 	if err != nil {
 		return 0, err
 	}
 
 	// Place the position to the very end of file.
-	q.position = fileInfo.Size() - 1
+	q.position = size - 1
 	if q.position < 0 {
 		q.position = 0
 	}
